@@ -1,44 +1,8 @@
-import SspModel.Real
-import SspModel.Generated.Formulas
-import SspModel.Generated.Constants
-import SspModel.Model.Pk
-import SspModel.Model.Life
-import SspModel.Model.Eject
-import SspModel.Model.Kicks
-import Mathlib.Tactic.Ring
-import Mathlib.Tactic.NormNum
-/-!
-# Bridges: the expressions extracted from /repo's source *now* (`Generated.*`) equal the
-hand-written model (`Model.*`) over ℝ.  A source edit that changes a formula breaks one of these.
--/
-namespace Bridge
-open Model Scalar
-
-/-- literal normalisation used by all bridges -/
-theorem sci_one : (@OfScientific.ofScientific ℝ ScalarLit.instOfSci 10 true 1) = (1:ℝ) := by
-  rw [real_ofSci]; norm_num
-theorem sci_two : (@OfScientific.ofScientific ℝ ScalarLit.instOfSci 20 true 1) = (2:ℝ) := by
-  rw [real_ofSci]; norm_num
-
-theorem gen_dmdt_sev (a0 a1 a2 t : ℝ) : Generated.dmdt_sev a0 a1 a2 t = dmdtAbs a0 a1 a2 t := by
-  simp only [Generated.dmdt_sev, dmdtAbs, dmdtRaw, sci_one, real_one]
-theorem gen_dmdt_bh (a0 a1 a2 t : ℝ) : Generated.dmdt_bh a0 a1 a2 t = dmdtAbs a0 a1 a2 t := by
-  simp only [Generated.dmdt_bh, dmdtAbs, dmdtRaw, sci_one, real_one]
-theorem gen_tms_main (a0 a1 a2 m : ℝ) : Generated.tms_main a0 a1 a2 m = tms a0 a1 a2 m := rfl
-theorem gen_tms_bh (a0 a1 a2 m : ℝ) : Generated.tms_bh a0 a1 a2 m = tms a0 a1 a2 m := rfl
-theorem gen_mto_main (a0 a1 a2 t : ℝ) :
-    (if Generated.mto_main_cond a0 t then some (Generated.mto_main_fin a0 a1 a2 t) else none) = mto a0 a1 a2 t := rfl
-theorem gen_mto_bh (a0 a1 a2 t : ℝ) :
-    (if Generated.mto_bh_cond a0 t then some (Generated.mto_bh_fin a0 a1 a2 t) else none) = mto a0 a1 a2 t := rfl
-theorem gen_pk (a k m1 m2 : ℝ) :
-    (if Generated.pk_mask a k then Generated.pk_log a k m1 m2 else Generated.pk_main a k m1 m2) = PkCore a k m1 m2 := rfl
-theorem gen_resolution : (Generated.resolution : ℝ) = Model.resolution := rfl
-theorem gen_mrem (d mb mt : ℝ) : Generated.mrem d mb mt = Mrem d mb mt := rfl
-theorem gen_sigmoid (m slope scale : ℝ) : Generated.sigmoid m slope scale = sigmoidRet slope scale m := rfl
-theorem gen_maxwellian (x a : ℝ) : Generated.maxwellian x a = maxwellPdf a x := by
-  simp only [Generated.maxwellian, maxwellPdf, real_one, real_two, real_three, real_rpow, real_exp, real_sqrt, real_pi]
-  try ring_nf
-theorem gen_kickSkip : (Generated.kickSkip : ℝ) = (1e-1 : ℝ) := by
-  simp only [Generated.kickSkip, real_ofSci]; try norm_num
-
-end Bridge
+import SspModel.Lemmas.Bridge.Basic
+import SspModel.Lemmas.Bridge.Sev
+import SspModel.Lemmas.Bridge.BHPop
+import SspModel.Lemmas.Bridge.Pk
+import SspModel.Lemmas.Bridge.Mrem
+import SspModel.Lemmas.Bridge.Kicks
+/-! All bridges (each property imports only the groups it depends on, so that an edit to one formula breaks exactly
+the obligations of the properties that rely on it). -/
